@@ -118,7 +118,7 @@ impl UserFunction for Probe {
 }
 
 /// A user function written without `async fn`: `call` does its bookkeeping when it is *entered* ("submit now, hand back a
-/// future for the answer") and the returned future only waits and answers. Registered for the name "fd". An
+/// future for the answer") and the returned future only waits and answers. Registered for the name "fc". An
 /// implementation that enters `call` and then does not await the future (or enters it more often than it should) shows up
 /// in the log exactly as an extra invocation does.
 pub struct EagerProbe(pub Probe);
@@ -259,7 +259,7 @@ pub fn build(spec: &SetSpec, tokio_yield: bool) -> Built {
         };
         b = if name == DEFAULT_CACHEABILITY_NAME && fs.cacheable {
             b.with_function(DefaultCacheabilityProbe(p))
-        } else if name == "fd" {
+        } else if name == "fc" {
             b.with_function(EagerProbe(p))
         } else if name == "fb" || name == "lp" {
             // registered already boxed, through the batch entry point
